@@ -866,17 +866,24 @@ def check(tier, seed, replay=None):
     """The standard flow, with one precaution: an observation that says the harness process died or
     stalled ((abort ..), (hang), (missing)) must REPRODUCE when the case is run again before it is
     judged - a process killed by the machine (global OOM killer, overload) is not the interpreter's
-    behaviour.  Genuine aborts (native stack overflow on deep recursion) reproduce and are judged."""
+    behaviour.  Genuine aborts (native stack overflow on deep recursion) reproduce and are judged.
+    Only a handful of cases is run again: many stalls at once are systematic (e.g. a tail-call loop
+    that never ends), not the machine, and each costs a full stall period."""
     import types
     from vlib import core, flow
     me = types.SimpleNamespace(**{k: v for k, v in globals().items() if k != "check"})
+    # the slowest quick-tier case (countdown(50000)) takes about a second; thorough has countdown(1000000)
+    me.STALL = 45.0 if tier == "quick" else STALL
     orig = core.run_impl
 
     def run_impl(mode, cases, exe=None, stall=30.0, workers=None):
         res = orig(mode, cases, exe=exe, stall=stall, workers=workers)
         redo = [c for c in cases if res.get(c["id"], "(missing)").startswith(("(abort", "(hang", "(missing"))]
+        hangs = [c for c in redo if not res.get(c["id"], "(missing)").startswith("(abort")]
+        if len(hangs) > 8:
+            redo = [c for c in redo if c not in hangs] + hangs[:8]
         if redo:
-            res.update(orig(mode, redo, exe=exe, stall=stall, workers=4))
+            res.update(orig(mode, redo, exe=exe, stall=stall, workers=8))
         return res
 
     core.run_impl = run_impl
